@@ -163,6 +163,15 @@ def check_flat(case):
             cnt["const_checked"] += 1
             if ct is not t or [bool(x) for x in cb] != p or len(cb) != w:
                 fail("const", p, f"const({sv!r}) = ({getattr(ct, '__name__', ct)}, {cb})")
+            # constants outside the canonical range: the compile-time encoding still equals the runtime encoding of the same value
+            if case["type"].startswith("Qint") and n % 5 == 0:
+                for k in (-3, -2, -1, 1, 2):
+                    ov = sv + k * (1 << w)
+                    ct2, cb2 = t.const(ov)
+                    rt2 = list(t(ov).to_bool())
+                    cnt["const_out_of_range_checked"] = cnt.get("const_out_of_range_checked", 0) + 1
+                    if [bool(x) for x in cb2] != [bool(x) for x in rt2] or len(cb2) != w:
+                        fail("const_out_of_range", p, f"const({ov}) = {cb2} but {case['type']}({ov}).to_bool() = {rt2}")
             # to_bin / from_bin
             sb = v.to_bin()
             cnt["bin_checked"] += 1
